@@ -329,10 +329,7 @@ Proof.
     cbn. apply N.eqb_refl.
   - (* ID *)
     destruct v as [|z|b|s|b|l|s|l|l]; try reflexivity.
-    + cbn [known_parse] in K. cbn [parse_id spec_id lift bindo]. unfold as_i64. unfold i64_max in *.
-      destruct (Z.ltb_spec 9223372036854775807 z); [discriminate K|].
-      destruct (Z.ltb_spec z 0); [apply str_eqb_refl|].
-      destruct (Z.leb_spec z 9223372036854775807); [apply str_eqb_refl|lia].
+    + cbn [lift]. rewrite parse_id_int. cbn [spec_id bindo out_eqb rv_eqb]. apply str_eqb_refl.
     + cbn. apply str_eqb_refl.
   - (* enums *)
     destruct v as [|z|b|s|b|l|s|l|l]; try reflexivity;
